@@ -17,6 +17,7 @@ import (
 	"github.com/whatap/golib/util/hmap"
 
 	"verifharness/core"
+	"verifharness/valgen"
 )
 
 // Bad marks a result that is not of the expected kind; it never equals
@@ -49,14 +50,23 @@ func (c Ctor) cap0() int {
 	return c.Cap
 }
 
+// PoolOpt shapes the key pool of a history.
+type PoolOpt struct {
+	Small bool // exactly n (2 or 3) keys that share a bucket at the first table sizes (graph replay)
+	Full  bool // small pools: two of the keys have IDENTICAL full hashes (only the keys themselves differ)
+}
+
 // TypeDef describes one type under test.
 type TypeDef struct {
 	Name    string
 	HasCtor bool
 	IsSet   bool
-	// New draws a key pool of about n keys (small: exactly 3 keys that share a
-	// bucket) and returns a factory of fresh objects over that pool.
-	New func(r *rand.Rand, n int, ctor Ctor, small bool) func() *Obj
+	// HasFull: the type's hash is not injective, so there are different keys with
+	// identical full hashes (StringSet: CRC-32; IntKeyMap: 31 mixed bits of a 32-bit key)
+	HasFull bool
+	// New draws a key pool of about n keys (chosen for the table sizes of ctor) and
+	// returns a factory of fresh objects over that pool, one per constructor call.
+	New func(r *rand.Rand, n int, ctor Ctor, po PoolOpt) func(Ctor) *Obj
 }
 
 // ---- replicated bucket hashes (they only steer the key generator) ----------
@@ -72,6 +82,54 @@ func hIntKey(h int32) uint {
 
 func hStr(s string) uint { return uint(int32(crc32.ChecksumIEEE([]byte(s)))) }
 
+// IntKeyMap's mixing keeps 31 bits of a 32-bit key: T(x) = x ^ x>>20 ^ x>>12 ^ x>>7 ^ x>>4
+// is a bijection of the 31-bit numbers, and a negative key (sign-extended before the
+// shifts) hashes to T(low 31 bits) ^ c for one constant c.  So every key has exactly ONE
+// twin of the other sign with the identical full hash.  intTwin computes it (ok only if
+// the replicated hash confirms it); like the hashes above it only chooses inputs.
+func invMix(t uint) uint {
+	var y uint
+	for i := 30; i >= 0; i-- {
+		b := t >> uint(i) & 1
+		for _, sh := range []int{4, 7, 12, 20} {
+			if i+sh <= 30 {
+				b ^= y >> uint(i+sh) & 1
+			}
+		}
+		y |= b << uint(i)
+	}
+	return y
+}
+
+func intTwin(k int32) (int32, bool) {
+	var t int32
+	if k < 0 {
+		t = int32(invMix(hIntKey(k)))
+	} else {
+		t = int32(uint32(invMix(hIntKey(k)^hIntKey(math.MinInt32))) | 1<<31)
+	}
+	return t, t != k && (t < 0) != (k < 0) && hIntKey(t) == hIntKey(k)
+}
+
+// strFullGroups: groups of different strings with one CRC-32 (valgen: suffix forgery
+// and birthday search, each group confirmed with golib's own string hash), without
+// the empty string (the string set refuses it).
+func strFullGroups() [][]string {
+	var out [][]string
+	for _, g := range valgen.FullHashGroups() {
+		var h []string
+		for _, k := range g {
+			if k != "" && hStr(k) == hStr(g[0]) {
+				h = append(h, k)
+			}
+		}
+		if len(h) >= 2 {
+			out = append(out, h)
+		}
+	}
+	return out
+}
+
 var intSpecials = []int32{0, 1, -1, math.MaxInt32, math.MinInt32, math.MinInt32 + 1, math.MaxInt32 - 1, 101, -101, 202, 203, 407, -407, 100, 102}
 var strSpecials = []string{"", " ", "a", "A", "0", "\x00", "ключ", "키", "a b/c=d, e", strings.Repeat("long-key-", 40), "{}", "null"}
 
@@ -83,7 +141,8 @@ func splitmix(x uint64) uint64 {
 }
 
 // intKeys draws the int32 key pool of a history.
-func intKeys(r *rand.Rand, n int, hash func(int32) uint, caps []uint, identity bool, small bool) []int32 {
+func intKeys(r *rand.Rand, n int, hash func(int32) uint, caps []uint, identity bool, po PoolOpt) []int32 {
+	small := po.Small
 	salt := r.Uint64()
 	cand := func(i int) int32 {
 		switch i % 4 {
@@ -122,7 +181,12 @@ func intKeys(r *rand.Rand, n int, hash func(int32) uint, caps []uint, identity b
 				return k != seed && hash(k)%caps[0] == hash(seed)%caps[0] && hash(k)%caps[1] == hash(seed)%caps[1]
 			}
 			out := []int32{seed}
-			for i := 0; i < 4000000 && len(out) < 3; i++ {
+			if po.Full { // the second key is the seed's full-hash twin
+				if tw, ok := intTwin(seed); ok && !identity {
+					out = append(out, tw)
+				}
+			}
+			for i := 0; i < 4000000 && len(out) < n; i++ {
 				k := cand(i)
 				if direct != nil {
 					var ok bool
@@ -137,15 +201,29 @@ func intKeys(r *rand.Rand, n int, hash func(int32) uint, caps []uint, identity b
 					out = append(out, k)
 				}
 			}
-			if len(out) == 3 {
+			if len(out) == n {
 				return out
 			}
 		}
 	}
-	return pickKeys(r, n, cand, intSpecials, hash, caps, direct, 400000)
+	var full [][]int32
+	if !identity { // twins: a few special keys and arbitrary ones, about a tenth of the pool
+		for i := 0; len(full) < 2+n/20 && i < 200; i++ {
+			k := cand(r.Intn(1 << 20))
+			if i < 3 {
+				k = intSpecials[r.Intn(len(intSpecials))]
+			}
+			if tw, ok := intTwin(k); ok {
+				full = append(full, []int32{k, tw})
+			}
+		}
+	}
+	return pickKeys(r, n, cand, intSpecials, full, hash, caps, direct, 400000)
 }
 
-func strKeys(r *rand.Rand, n int, caps []uint, small bool) []string {
+func strKeys(r *rand.Rand, n int, caps []uint, po PoolOpt) []string {
+	small := po.Small
+	groups := strFullGroups()
 	salt := r.Intn(1 << 30)
 	prefixes := []string{"k", "키", "", "a b/", "K"}
 	cand := func(i int) string {
@@ -155,6 +233,11 @@ func strKeys(r *rand.Rand, n int, caps []uint, small bool) []string {
 		// the empty string plus two strings sharing a bucket at the first two table sizes
 		seed := cand(r.Intn(1 << 20))
 		out := []string{"", seed}
+		if po.Full && len(groups) > 0 { // two different strings with one full CRC-32
+			g := groups[r.Intn(len(groups))]
+			i := r.Intn(len(g) - 1)
+			out = []string{"", g[i], g[i+1]}
+		}
 		for i := 0; len(out) < 3; i++ {
 			k := cand(i)
 			if k != seed && hStr(k)%caps[0] == hStr(seed)%caps[0] && (hStr(k)%caps[1] == hStr(seed)%caps[1] || i > 2000000) {
@@ -163,7 +246,11 @@ func strKeys(r *rand.Rand, n int, caps []uint, small bool) []string {
 		}
 		return out
 	}
-	return pickKeys(r, n, cand, strSpecials, hStr, caps, nil, 150000)
+	var full [][]string
+	for k := 1 + r.Intn(2+n/40); k > 0 && len(groups) > 0; k-- {
+		full = append(full, groups[r.Intn(len(groups))])
+	}
+	return pickKeys(r, n, cand, strSpecials, full, hStr, caps, nil, 150000)
 }
 
 // NilV is the value code of the nil object (PlainMap.tla NilV).
@@ -303,8 +390,30 @@ func newIntIntMap(c Ctor) *hmap.IntIntMap {
 // the constructors the wire round trip reads into (op.V picks one)
 var rtCtors = []Ctor{{Default: true}, {Cap: 1, LF: 0.75}, {Cap: 3, LF: 1}, {Cap: 11, LF: 0.5}}
 
-func intIntObj(p *intPool, ctor Ctor) *Obj {
-	m := newIntIntMap(ctor)
+func intIntObj(p *intPool, ctor Ctor) *Obj { return intIntObjOf(p, ctor, newIntIntMap(ctor)) }
+
+// keyArr / valArr: a []int32 of keys / values in the harness's hands
+func keyArr(p *intPool, of string, a []int32) *Arr {
+	return &Arr{Of: of, Kind: "k", Read: func() []int {
+		seq := []int{}
+		for _, k := range a {
+			seq = append(seq, p.rank(k))
+		}
+		return seq
+	}, Write: func(i int, x int) { a[i] = p.key(x) }}
+}
+
+func valArr(of string, a []int32) *Arr {
+	return &Arr{Of: of, Kind: "v", Read: func() []int {
+		seq := []int{}
+		for _, v := range a {
+			seq = append(seq, int(v))
+		}
+		return seq
+	}, Write: func(i int, x int) { a[i] = int32(x) }}
+}
+
+func intIntObjOf(p *intPool, ctor Ctor, m *hmap.IntIntMap) *Obj {
 	o := &Obj{Type: "IntIntMap", Ctor: ctor.String(), N: len(p.keys), Ops: map[string]func(Op) Ev{}, Pool: p.describe()}
 	if ctor.None != 0 {
 		o.Hdr = Ev{"none": []int{int(ctor.None)}}
@@ -312,6 +421,7 @@ func intIntObj(p *intPool, ctor Ctor) *Obj {
 	lim := func() int { return m.Size() + enumSlack }
 	ret := func(v int32) Ev { return Ev{"ret": []int{int(v)}} }
 	o.Size = func() int { return m.Size() }
+	o.Raw = func() interface{} { return m }
 	o.Proj = func() (ks, vs []int) {
 		drainObjs(m.Entries(), lim(), func(x interface{}) {
 			if e, ok := x.(*hmap.IntIntEntry); ok {
@@ -350,18 +460,12 @@ func intIntObj(p *intPool, ctor Ctor) *Obj {
 		return Ev{"pairs": pairs}
 	}
 	o.Ops["KeyArray"] = func(op Op) Ev {
-		seq := []int{}
-		for _, k := range m.KeyArray() {
-			seq = append(seq, p.rank(k))
-		}
-		return Ev{"seq": seq}
+		o.LastArr = keyArr(p, "ret", m.KeyArray())
+		return Ev{"seq": o.LastArr.Read()}
 	}
 	o.Ops["ValueArray"] = func(op Op) Ev {
-		seq := []int{}
-		for _, v := range m.ValueArray() {
-			seq = append(seq, int(v))
-		}
-		return Ev{"seq": seq}
+		o.LastArr = valArr("ret", m.ValueArray())
+		return Ev{"seq": o.LastArr.Read()}
 	}
 	o.Ops["Sort"] = func(op Op) Ev {
 		m.Sort(func(a, b int32) bool { return Less(op.Dir, p.rank(a), p.rank(b)) })
@@ -377,10 +481,25 @@ func intIntObj(p *intPool, ctor Ctor) *Obj {
 	o.Ops["RoundTrip"] = func(op Op) Ev {
 		b := wire()
 		c := rtCtors[((op.V%len(rtCtors))+len(rtCtors))%len(rtCtors)]
-		c.None = ctor.None                                 // the map read into is configured like the one written
+		c.None = ctor.None // the map read into is configured like the one written
+		if op.Hold {       // the map that was written stays alive beside the one read back
+			o.Forked = intIntObjOf(p, ctor, m)
+		}
 		m = newIntIntMap(c).ToObject(gio.NewDataInputX(b)) // the read-back map replaces the object under test
 		ks, vs := o.Proj()
 		return Ev{"keys": nz(ks), "vals": nz(vs), "into": c.String()}
+	}
+	// put-all between two int-to-int maps goes through the wire form: what the other
+	// map writes is read into this one (ToObject puts every pair it reads)
+	o.Ops["PutAllFrom"] = func(op Op) Ev {
+		src, ok := op.Other.Raw().(*hmap.IntIntMap)
+		if !ok {
+			panic("c12: PutAllFrom needs another IntIntMap")
+		}
+		dout := gio.NewDataOutputX()
+		src.ToBytes(dout)
+		m = m.ToObject(gio.NewDataInputX(dout.ToByteArray()))
+		return Ev{"via": "wire"}
 	}
 	return o
 }
@@ -399,6 +518,7 @@ func intKeyObj(p *intPool, ctor Ctor) *Obj {
 	o := &Obj{Type: "IntKeyMap", Ctor: ctor.String(), N: len(p.keys), Ops: map[string]func(Op) Ev{}, Pool: p.describe()}
 	lim := func() int { return m.Size() + enumSlack }
 	o.Size = func() int { return m.Size() }
+	o.Raw = func() interface{} { return m }
 	o.Proj = func() (ks, vs []int) {
 		drainObjs(m.Entries(), lim(), func(x interface{}) {
 			if e, ok := x.(*hmap.IntKeyEntry); ok {
@@ -434,11 +554,8 @@ func intKeyObj(p *intPool, ctor Ctor) *Obj {
 		return Ev{"pairs": pairs}
 	}
 	o.Ops["KeyArray"] = func(op Op) Ev {
-		seq := []int{}
-		for _, k := range m.KeyArray() {
-			seq = append(seq, p.rank(k))
-		}
-		return Ev{"seq": seq}
+		o.LastArr = keyArr(p, "ret", m.KeyArray())
+		return Ev{"seq": o.LastArr.Read()}
 	}
 	o.Ops["ToString"] = func(op Op) Ev { return Ev{"items": items(m.ToString(), "=")} }
 	o.Ops["ToFormatString"] = func(op Op) Ev { return Ev{"items": items(m.ToFormatString(), "=")} }
@@ -453,6 +570,16 @@ func intKeyObj(p *intPool, ctor Ctor) *Obj {
 		m.PutAll(other)
 		return Ev{}
 	}
+	// put-all with another LIVE map as the argument (the session keeps it and goes on
+	// observing and modifying both)
+	o.Ops["PutAllFrom"] = func(op Op) Ev {
+		src, ok := op.Other.Raw().(*hmap.IntKeyMap)
+		if !ok {
+			panic("c12: PutAllFrom needs another IntKeyMap")
+		}
+		m.PutAll(src)
+		return Ev{}
+	}
 	return o
 }
 
@@ -463,6 +590,7 @@ func intSetObj(p *intPool) *Obj {
 	o := &Obj{Type: "IntSet", Ctor: "default", N: len(p.keys), Set: true, Ops: map[string]func(Op) Ev{}, Pool: p.describe()}
 	lim := func() int { return m.Size() + enumSlack }
 	o.Size = func() int { return m.Size() }
+	o.Raw = func() interface{} { return m }
 	elems := func() []int {
 		seq := []int{}
 		drainInts(m.Values(), lim(), func(k int32) { seq = append(seq, p.rank(k)) })
@@ -493,6 +621,7 @@ func intSetObj(p *intPool) *Obj {
 			vals = append(vals, p.key(k))
 		}
 		m.PutAll(vals)
+		o.LastArr = keyArr(p, "arg", vals) // the argument is the caller's slice: the set neither keeps nor changes it
 		return Ev{}
 	}
 	return o
@@ -505,6 +634,7 @@ func strSetObj(p *strPool) *Obj {
 	o := &Obj{Type: "StringSet", Ctor: "default", N: len(p.keys), EK: p.rank(""), Set: true, Ops: map[string]func(Op) Ev{}, Pool: p.describe()}
 	lim := func() int { return m.Size() + enumSlack }
 	o.Size = func() int { return m.Size() }
+	o.Raw = func() interface{} { return m }
 	elems := func() []int {
 		seq := []int{}
 		en := m.Keys()
@@ -527,20 +657,20 @@ func strSetObj(p *strPool) *Obj {
 // ---------------------------------------------------------------------- types
 
 var Types = []TypeDef{
-	{Name: "IntIntMap", HasCtor: true, New: func(r *rand.Rand, n int, c Ctor, small bool) func() *Obj {
-		p := newIntPool(intKeys(r, n, hIdent, capsFor(c.cap0(), small), true, small))
-		return func() *Obj { return intIntObj(p, c) }
+	{Name: "IntIntMap", HasCtor: true, New: func(r *rand.Rand, n int, c Ctor, po PoolOpt) func(Ctor) *Obj {
+		p := newIntPool(intKeys(r, n, hIdent, capsFor(c.cap0(), po.Small), true, po))
+		return func(c Ctor) *Obj { return intIntObj(p, c) }
 	}},
-	{Name: "IntKeyMap", HasCtor: true, New: func(r *rand.Rand, n int, c Ctor, small bool) func() *Obj {
-		p := newIntPool(intKeys(r, n, hIntKey, capsFor(c.cap0(), small), false, small))
-		return func() *Obj { return intKeyObj(p, c) }
+	{Name: "IntKeyMap", HasCtor: true, HasFull: true, New: func(r *rand.Rand, n int, c Ctor, po PoolOpt) func(Ctor) *Obj {
+		p := newIntPool(intKeys(r, n, hIntKey, capsFor(c.cap0(), po.Small), false, po))
+		return func(c Ctor) *Obj { return intKeyObj(p, c) }
 	}},
-	{Name: "IntSet", IsSet: true, New: func(r *rand.Rand, n int, c Ctor, small bool) func() *Obj {
-		p := newIntPool(intKeys(r, n, hIdent, capsFor(hmap.DEFAULT_CAPACITY, small), true, small))
-		return func() *Obj { return intSetObj(p) }
+	{Name: "IntSet", IsSet: true, New: func(r *rand.Rand, n int, c Ctor, po PoolOpt) func(Ctor) *Obj {
+		p := newIntPool(intKeys(r, n, hIdent, capsFor(hmap.DEFAULT_CAPACITY, po.Small), true, po))
+		return func(Ctor) *Obj { return intSetObj(p) }
 	}},
-	{Name: "StringSet", IsSet: true, New: func(r *rand.Rand, n int, c Ctor, small bool) func() *Obj {
-		p := newStrPool(strKeys(r, n, capsFor(hmap.DEFAULT_CAPACITY, small), small))
-		return func() *Obj { return strSetObj(p) }
+	{Name: "StringSet", IsSet: true, HasFull: true, New: func(r *rand.Rand, n int, c Ctor, po PoolOpt) func(Ctor) *Obj {
+		p := newStrPool(strKeys(r, n, capsFor(hmap.DEFAULT_CAPACITY, po.Small), po))
+		return func(Ctor) *Obj { return strSetObj(p) }
 	}},
 }
